@@ -50,7 +50,7 @@ type SI struct {
 }
 
 // longLens are marshaled lengths (JSON string incl. quotes) of the "long" values.
-var longLens = []int{125, 126, 127, 128, 129, 130, 256, 16384}
+var longLens = []int{125, 126, 127, 128, 129, 16384, 20000, 256}
 
 // LK is a user key type: rank K, layer L (the same K always carries the same L within a case).
 type LK struct {
